@@ -297,3 +297,68 @@ def check_format_fraction(repo):
             if not ok:
                 problems.append((p.node, f"fraction_accuracy={acc:#x}" + (f", {fx}" if fx else "") + f": returns `{got}`; {what}"))
     return f, n, problems
+
+
+# ------------------------------------------------------------------------------------------------ _auto_units
+def module_literal_asts(repo, rel="cell.py"):
+    """Module-level names bound exactly once to a tuple/list display (tables a loop may walk): name -> AST."""
+    tree = repo.tree(rel)
+    counts = {}
+    for n in ast.walk(tree):
+        if isinstance(n, ast.Name) and isinstance(n.ctx, (ast.Store, ast.Del)):
+            counts[n.id] = counts.get(n.id, 0) + 1
+    out = {}
+    for n in tree.body:
+        if isinstance(n, ast.Assign) and len(n.targets) == 1 and isinstance(n.targets[0], ast.Name) and counts.get(n.targets[0].id) == 1 and isinstance(n.value, (ast.Tuple, ast.List)):
+            out[n.targets[0].id] = n.value
+    return out
+
+
+def check_auto_units(repo):
+    """Automatic duration units: the largest unit by magnitude thresholds, the smallest by divisibility, never finer
+    than... coarser than the largest.  The summarised function is evaluated at every threshold boundary."""
+    import math
+    f = repo.func("cell.py", "_auto_units")
+    v, nf = [a.arg for a in f.args.args[:2]]
+    C = repo.consts
+    U_ = {k.split(".")[1]: C[k] for k in C if k.startswith("DurationUnits.")}
+    if not {"WEEK", "DAY", "HOUR", "MINUTE", "SECOND", "MILLISECOND"} <= set(U_):
+        raise AnalysisError("DurationUnits members not found in constants.py")
+    paths = Summarizer(consts=module_literal_asts(repo)).summarize(f)
+    base = {k: val for k, val in C.items() if isinstance(val, (int, float)) and not isinstance(val, bool)}
+    W, D, H = C["SECONDS_IN_WEEK"], C["SECONDS_IN_DAY"], C["SECONDS_IN_HOUR"]
+    values = [0, 0.25, 0.999, 1, 1.5, 59, 59.5, 60, 61, 120, 3599, H, H + 1, H + 60, 2 * H, D - 1, D, D + 1, D + 60, D + H, 2 * D, W - 1, W, W + 1, W + 60, W + H, W + D, 2 * W, 2 * W + 0.5, -0.5, -90, -H, -W]
+    problems = []
+    n = 0
+    for val in values:
+        for nf_small in (U_["WEEK"], U_["SECOND"], U_["MILLISECOND"]):
+            sc = {**base, v: val, f"math.floor({v})": math.floor(val), f"floor({v})": math.floor(val), f"int({v})": int(val),
+                  f"{nf}.duration_unit_smallest": nf_small, f"{nf}.duration_unit_largest": U_["WEEK"]}
+            if val == 0:
+                want = (U_["DAY"], U_["DAY"])
+            else:
+                largest = U_["WEEK"] if val >= W else U_["DAY"] if val >= D else U_["HOUR"] if val >= H else U_["MINUTE"] if val >= 60 else U_["SECOND"] if val >= 1 else U_["MILLISECOND"]
+                if math.floor(val) != val:
+                    small = U_["MILLISECOND"]
+                elif val % 60:
+                    small = U_["SECOND"]
+                elif val % H:
+                    small = U_["MINUTE"]
+                elif val % D:
+                    small = U_["HOUR"]
+                elif val % W:
+                    small = U_["DAY"]
+                else:
+                    small = nf_small
+                want = (max(small, largest), largest)
+            for fx, kind, got, p in decide(paths, sc):
+                n += 1
+                from .funsum import Asg, _Simp
+                import copy
+                r = _Simp(Asg(sc, fx)).visit(copy.deepcopy(funsum._strip(p.ret)))
+                gv = cval(r, sc)
+                if kind != "return" or gv != want:
+                    names = {val_: k for k, val_ in U_.items()}
+                    show = (lambda t: tuple(names.get(x, x) for x in t) if isinstance(t, tuple) else got)
+                    problems.append((p.node, f"duration of {val} s" + (f", {fx}" if fx else "") + f": (smallest, largest) = {show(gv)} instead of {show(want)}"))
+    return f, n, problems
